@@ -337,6 +337,12 @@ func RunC02(env *sim.Env) {
 				}
 			default:
 				nOK++
+				// "usable": the tree the parser built can at least be printed; a node whose required
+				// child is missing makes String panic on a nil pointer
+				if pp := sim.Guard(func() { _ = tm.Root.String() }); pp != nil {
+					env.Violate("result-shape", "unprintable-tree:"+pp.InnermostJetFunc(), "%s returned a template whose tree cannot be printed (Root.String panics): %v", where, sim.Clip(pp.String(), 300))
+				}
+				env.Stat("counters:returned_trees_printed", 1)
 			}
 		}
 		// GetTemplate is judged only while the loader has served the victim's real bytes (an
